@@ -251,7 +251,8 @@ def build_groupby(ctx, tape, cap, source):
     # (a grouping column declared `str` — ragged text — is not generated here: a streamed group-by over such a column
     # always raises TypeError inside npstructures under numpy 2 (int() of a size-1 array in the fast path `keys[-1]`),
     # the in-memory form works and is exercised by C12's `table_strkey` sources)
-    strkey = False
+    # KF-C11-ragged-key-groupby-typeerror (open): generated in 1/10 of the runs only
+    strkey = (not ctx.excl) and col == "chromosome" and source == "mem" and tape.boolean("gb.strkey", 1, 2)
     if col == "chromosome":
         names = gen_key_names(tape, "key")
         rows = gen_grouped_rows(tape, cap, names, "iv")
